@@ -53,6 +53,12 @@ def run(tier, seed):
             for mode in ("password", "hash"):
                 plans.append({"id": "longpw%d-%s" % (n, mode), "domain": [100], "user": [117, 115, 114], "password": [33 + ((7 * i) % 90) if i % 50 else 0x1f511 for i in range(n)], "mode": mode,
                               "flagclass": "default", "flags": ntlm.FLAGS["default"], "sc": [1, 1, 2, 3, 5, 8, 13, 21], "ti": [[2, [68, 0]], [7, [1, 2, 3, 4, 5, 6, 7, 8]]], "tname": [83, 0]})
+        # pass phrases with white space at either end (legal, and significant), the empty account
+        for j, pw in enumerate(([112, 119, 32], [112, 119, 9], [112, 119, 0x3000], [32, 32, 32], [32, 112], [112, 10], [112, 13, 10], [0xa0], [])):
+            for usr in ([117], []):
+                for mode in ("password", "hash"):
+                    plans.append({"id": "ws%d-%d-%s" % (j, len(usr), mode), "domain": [100] if j % 2 else [], "user": usr, "password": pw, "mode": mode,
+                                  "flagclass": "default", "flags": ntlm.FLAGS["default"], "sc": [2, 7, 1, 8, 2, 8, 1, 8], "ti": [[2, [68, 0]], [7, [1, 2, 3, 4, 5, 6, 7, 8]]], "tname": [83, 0]})
         trace = ntlm.run(wd, plans, "c15")
         accepted, rejects = core.tv_all("Trace_Ntlm", trace, "/dev/null", wd, shards=8, max_rejects=5, overrides=True)
         for r in rejects:
